@@ -551,6 +551,8 @@ pub struct Prepared {
     /// the unformatted body (formatter none) and its normalised token text
     pub unformatted: String,
     pub tokens: String,
+    /// false if even formatter=none does not start with the modelled prefix
+    pub prefix_ok: bool,
 }
 
 struct Shared(*const Vec<Prepared>);
@@ -599,7 +601,15 @@ fn bindgen_version() -> String {
     "(unknown version)".into()
 }
 
-const RAW_LINES: [&str; 2] = ["// raw line one", "use core::ffi::c_void as _rawline_marker;"];
+/// Raw lines in an order that no "clever" re-grouping leaves intact: a comment
+/// and a doc line stand before / between inner attributes.
+const RAW_LINES: [&str; 5] = [
+    "// raw line one",
+    "#![allow(dead_code)]",
+    "//! module docs between the attributes",
+    "#![allow(non_snake_case)]",
+    "use core::ffi::c_void as _rawline_marker;",
+];
 
 pub fn prepare(sizes: &[usize]) -> Vec<Prepared> {
     let mut out = Vec::new();
@@ -633,23 +643,24 @@ pub fn prepare(sizes: &[usize]) -> Vec<Prepared> {
             let full = none.to_string();
             let prefix = if variant == 0 {
                 format!(
-                    "/* automatically generated by rust-bindgen {} */\n\n{}\n{}\n\n",
+                    "/* automatically generated by rust-bindgen {} */\n\n{}\n\n",
                     bindgen_version(),
-                    RAW_LINES[0],
-                    RAW_LINES[1]
+                    RAW_LINES.join("\n")
                 )
             } else {
                 String::new()
             };
-            assert!(full.starts_with(&prefix), "prefix model wrong: {:?}", &full[..full.len().min(200)]);
-            let unformatted = full[prefix.len()..].to_string();
-            let tokens = normalise(&unformatted).expect("unformatted body must tokenise");
+            // formatter=none must already put the header comment and raw lines first, once, in order
+            let prefix_ok = full.starts_with(&prefix);
+            let unformatted = if prefix_ok { full[prefix.len()..].to_string() } else { full.clone() };
+            let tokens = normalise(&unformatted).unwrap_or_default();
             out.push(Prepared {
                 name: format!("n{n}v{variant}"),
                 bindings: mk("rustfmt"),
                 prefix,
                 unformatted,
                 tokens,
+                prefix_ok,
             });
         }
     }
@@ -662,6 +673,9 @@ pub fn prepare(sizes: &[usize]) -> Vec<Prepared> {
 /// persists the schedule.
 fn execute(case: &Case, prepared: &[Prepared], fps: &std::sync::Mutex<BTreeSet<u64>>) {
     let p = &prepared[case.bindings % prepared.len()];
+    if !p.prefix_ok {
+        panic!("C15VIOL prefix: with formatter none the header comment / raw lines are not first, once and in order");
+    }
     let log = Log::default();
     let shared = Arc::new(ChildShared {
         written: std::sync::Mutex::new(Vec::new()),
@@ -972,23 +986,23 @@ fn prepare_real(n: usize, variant: usize, rustfmt: &str, formatter: &str, config
     let full = mk("none").to_string();
     let prefix = if variant == 0 {
         format!(
-            "/* automatically generated by rust-bindgen {} */\n\n{}\n{}\n\n",
-            bindgen_version(),
-            RAW_LINES[0],
-            RAW_LINES[1]
-        )
+                    "/* automatically generated by rust-bindgen {} */\n\n{}\n\n",
+                    bindgen_version(),
+                    RAW_LINES.join("\n")
+                )
     } else {
         String::new()
     };
-    assert!(full.starts_with(&prefix));
-    let unformatted = full[prefix.len()..].to_string();
-    let tokens = normalise(&unformatted).unwrap();
+    let prefix_ok = full.starts_with(&prefix);
+    let unformatted = if prefix_ok { full[prefix.len()..].to_string() } else { full.clone() };
+    let tokens = normalise(&unformatted).unwrap_or_default();
     let p = std::rc::Rc::new(Prepared {
         name: key.clone(),
         bindings: mk(formatter),
         prefix,
         unformatted,
         tokens,
+        prefix_ok,
     });
     let _ = std::fs::remove_dir_all(&dir);
     REAL.with(|r| r.borrow_mut().insert(key, p.clone()));
@@ -1007,7 +1021,16 @@ pub fn op_real(req: &Value) -> Value {
     let config = jstr(req, "config");
     let expect = jstr(req, "expect").unwrap_or("model");
     let p = prepare_real(n, variant, rustfmt, formatter, config);
+    if !p.prefix_ok {
+        return json!({"ok": false, "class": "prefix",
+                      "message": "with formatter none the header comment / raw lines are not first, once and in order"});
+    }
     std::env::set_var("FAKEFMT_SCRIPT", script);
+    // the formatter may also come from $RUSTFMT (only consulted without with_rustfmt())
+    match jstr(req, "rustfmt_env") {
+        Some(v) => std::env::set_var("RUSTFMT", v),
+        None => std::env::remove_var("RUSTFMT"),
+    }
     let mut buf: Vec<u8> = Vec::new();
     // the three public ways to get the text out
     let sink = jstr(req, "sink").unwrap_or("vec");
